@@ -394,26 +394,21 @@ def rule_s5(ck, prog, S):
         ck.violated("C11-S5", st, K.loc(empty), "SCPI_ErrorEmitEmpty does not clear STB.QMA")
     else:
         facts = K.facts_at(S, empty, clears[0]) or []
-        okc = False
+        rf = K.rel_facts(facts)
+        cnt_key = "call:SCPI_ErrorCount(context)"
+        okc = K.holds_rel(rf, cnt_key, "==", 0) or K.holds_rel(rf, cnt_key, "<=", 0)
         extra = []
         for atom, pol in facts:
             if isinstance(pol, tuple):
                 extra.append(atom.src)
                 continue
+            mentions_count = any(x.k == "CallExpr" and x.get("callee") == "SCPI_ErrorCount" for x in atom.walk())
+            mentions_qma = any(x.k == "CallExpr" and x.get("callee") == "SCPI_RegGet" for x in atom.walk()) and \
+                any(C.const_of(x) == QMA for x in atom.walk() if x.k in ("IntegerLiteral", "ImplicitCastExpr", "DeclRefExpr", "ParenExpr"))
             if atom.k == "BinaryOperator" and atom.get("op") in ("&&", "||"):
                 continue
-            if atom.k == "BinaryOperator" and atom.get("op") == "==" and pol and C.const_of(atom.child(1)) == 0 \
-                    and C.is_call(atom.child(0).strip_all_casts(), "SCPI_ErrorCount"):
-                okc = True
-                continue
-            if atom.k == "CallExpr" and atom.get("callee") == "SCPI_ErrorCount" and not pol:
-                okc = True
-                continue
-            s = atom.strip_all_casts()
-            if s.k == "BinaryOperator" and s.get("op") == "&" and pol and C.const_of(s.child(1)) == QMA and \
-                    C.is_call(s.child(0).strip_all_casts(), "SCPI_RegGet") and \
-                    C.const_of(K.arg(s.child(0).strip_all_casts(), 1)) == stb:
-                continue  # "QMA currently set": clearing is a no-op otherwise
+            if mentions_count or mentions_qma:
+                continue   # the count test itself (any spelling) / "QMA currently set" (clearing is a no-op otherwise)
             extra.append(atom.src)
         if okc and not extra:
             ck.holds("C11-S5", st, K.loc(empty, clears[0]), "clear(STB.QMA) guarded exactly by count == 0 [and QMA set]")
